@@ -87,26 +87,27 @@ func (s *sink) feed(p []byte) {
 
 type scenario struct {
 	Params
-	rec        *recorder
-	payload    [2][]byte
-	rmu        sync.Mutex
-	rr         *rng.R
-	sinks      [2]*sink // sinks[CT] is at the far endpoint, sinks[TC] at the client
-	shutT      [2]int64 // time the source endpoint of direction d called shutdown, -1 if never
-	head       []byte
-	reply      []byte
-	farPre     int // bytes the far endpoint consumed as protocol preamble
-	farHead    int // bytes of the far endpoint's protocol reply preceding the tunnel payload
-	timeout    atomic.Bool
-	lcAttached atomic.Int64
-	emu        sync.Mutex
-	errs       []string
-	closedC    map[string]chan struct{}
-	cmu        sync.Mutex
-	bar        [2]chan struct{}
-	deadline   time.Time
-	farAddr    string
-	socksReply []byte // what the scripted SOCKS5 server sent before the tunnel
+	rec          *recorder
+	payload      [2][]byte
+	rmu          sync.Mutex
+	rr           *rng.R
+	sinks        [2]*sink // sinks[CT] is at the far endpoint, sinks[TC] at the client
+	shutT        [2]int64 // time the source endpoint of direction d called shutdown, -1 if never
+	head         []byte
+	reply        []byte
+	farPre       int // bytes the far endpoint consumed as protocol preamble
+	farHead      int // bytes of the far endpoint's protocol reply preceding the tunnel payload
+	timeout      atomic.Bool
+	lcAttached   atomic.Int64
+	emu          sync.Mutex
+	errs         []string
+	closedC      map[string]chan struct{}
+	cmu          sync.Mutex
+	bar          [2]chan struct{}
+	deadline     time.Time
+	farAddr      string
+	socksReply   []byte // what the scripted SOCKS5 server sent before the tunnel
+	farReplyHead []byte // Upgrade: the 101 response head the scripted target sent
 }
 
 func genPayload(seed uint64, d int, n int) []byte {
@@ -609,6 +610,7 @@ func (sc *scenario) runFar(l net.Listener, tlsCfg *tls.Config, wg *sync.WaitGrou
 		}
 		sc.farPre, rest = len(h), r
 		replyHead = []byte("HTTP/1.1 101 Switching Protocols\r\nConnection: Upgrade\r\nUpgrade: verif-tunnel\r\n\r\n")
+		sc.farReplyHead = replyHead
 	case "socks5":
 		hdr := make([]byte, 2)
 		if _, err := io.ReadFull(conn, hdr); err != nil {
